@@ -224,3 +224,42 @@ PROPS['C20'].update(suites=['c20hints'], run_files=['Tie.v', 'TieFast.v'], stati
 TEXT['C20']['level'] = ('PARTIAL: proof-of-model + measurement. Coq (Cost.v): the size-hint bookkeeping as a pure model; with previous-sibling hints the sum of all hints over any history of calls is at most the first remembered hint plus the total of all sizes (prev_sibling_linear, reuse_pays_once); the pre-fix running maximum is proved quadratic and never-forgetting (running_max_quadratic, running_max_never_forgets). The model is tied to the code by comparing the reader\'s remembered hints (verif hook) with Cost.remembered_prev over call histories. Run time: TotalAlloc of 15 adversarial families at 3 sizes must stay linear and below a fixed constant per input byte')
 
 PROPS['C13']['static_files'] = PROPS['C13']['static_files'] + ['ExclusiveFacts.v']
+
+# ---------------------------------------------------------------- final manifest texts (override the early ones)
+_TB = ('Trusted: Coq 8.16.1 kernel/vm_compute; translator tools/rl2v; Machine.prun as the meaning of the -G2 skeleton and units; '
+       'hand models of hand-written Go functions (validated by correspondence, not verified); ExtrOcamlBasic extraction; harness/driver glue; '
+       'Go stdlib as oracle. ')
+T('C01', 'PROOF, end to end on the model: run/PropsC02.v C01_Valid_exact: for ALL inputs and buffers, the model of Valid over the REGENERATED skipValue table equals Ref.valid_ref (reference RFC 8259 validator, depth 10000), via wf_check + certified simulation with the hand-written spec machine (TieSim) + SpecFacts.valid_spec_correct; axiom-free. Correspondence: impl vs model vs json.Valid on state x byte sweep (193 states x 256 bytes), small-scope strings, documents+mutants, depth 9999-10001, 3 buffer kinds',
+  _TB + 'Ref.v is an executable reference validated against encoding/json on >1.1M cases; its equivalence with an inductive RFC 8259 grammar is in progress (Grammar.v).', 'Coq proof: regenerated table -> certified simulation -> spec machine -> reference semantics; plus impl/model/oracle correspondence')
+T('C02', 'PROOF, end to end on the model: C02_SkipValue_exact: for ALL inputs and buffers SkipValue (model over the regenerated table) returns exactly Ref.skip_ref (offset just after the first value by maximal munch, error otherwise). Correspondence incl. every value x every next byte, truncations at every position; oracle json.Decoder offsets',
+  _TB, 'Coq proof (simulation + spec machine + reference) with correspondence')
+T('C03', 'PARTIAL: Coq model of ValueReader (faithful and accelerated evaluators) over the regenerated handler tables, which are tied to spec machines by certified simulation; the tree theorem is not proved. Correspondence: both evaluators vs implementation vs encoding/json (after StdLibCompatible*) on generated trees (duplicate/escaped/colliding keys, every float path, typed entry points on every token class, depth 9999-10001)',
+  _TB + 'Beyond nesting 2000 only implementation vs encoding/json is compared (model evaluation cost).', 'Coq model + simulation tie + correspondence (impl vs model vs encoding/json)')
+T('C04', 'PROOF (layered) with a visible frontier: round_ne spec (representable, half-ulp, ties-even, monotone, nearest); every row of the REGENERATED 128-bit powers-of-ten table, log2 approximation, float64pow10, powtab, leftcheats proved exact on every run (TieFp); scanner spec; exact path correct; Eisel-Lemire sound (complete); decimal shifts exact; parse_correct_partial (literals with <= 800 significant integer digits, |exponent| <= 99999, slow path dropping no digit); parse_correct_full is REFUTED on the model (two known findings, both shared with strconv.ParseFloat). Correspondence: stage-wise hooks, 34k (quick) / 3.1M (thorough) literals; spec round_ne vs implementation and vs strconv',
+  _TB + 'IEEE-754 float64 * and / are modelled as round_ne of the exact result.', 'Coq proof (tables by vm_compute, interval arithmetic in Z) with stage-wise correspondence')
+T('C05', 'PROOF, complete on the model: IntFacts.read_uint64_exact ... read_int_exact: for ALL inputs each reader model (explicit mod-2^64 accumulator, 18-digit loop, cutoff, wrap test, asymmetric sign handling) equals the loop-free exact-integer specification IntSpec. Correspondence: windows around 19 bounds x sign x next byte, all strings <= 5 over {-+019.e space}; oracle math/big reference',
+  _TB, 'Coq proof (lia over Z) with boundary-window correspondence')
+T('C06', 'PARTIAL->PROOF in progress: escape machines tied to spec machines (TieSim) and proved panic-free incl. the 12-byte surrogate rule (wf_check); helper models (getu4, unescapeUnicodeChar, utf8/utf16) validated by hooks; decode theorem (append_spec_correct) in progress. Correspondence: all contents <= 3 over 22 bytes, every byte at every position, all \\\\u classes, surrogate grids, every position of the second escape corrupted, destination capacity boundaries; oracle = reference decoder written from the property text',
+  _TB, 'Coq model + simulation tie + correspondence (impl vs model vs reference decoder)')
+T('C07', 'PARTIAL: handler tables tied to spec machines (TieSim), calls in range and handler phases (wf_check); traversal theorem (members_spec_correct) in progress. Correspondence: state x byte sweep of both handler machines, exhaustive {0,exact}^k strategy vectors, documents+mutants; oracle = member list computed with json.Decoder',
+  _TB, 'Coq simulation tie + correspondence (impl vs model vs json.Decoder member list)')
+T('C08', 'PARTIAL: no end-to-end theorem yet (needs the traversal theorem); the ingredients proved are exact offsets of SkipValue (C02), integer readers (C05), literals (C13). Correspondence: a decoder written only against the public API, choosing per value among typed readers / SkipValue / SkipValueFast / nested handlers by a decision function shared by the Go harness and the OCaml driver over the model; final offsets and trees vs direct decoding',
+  _TB, 'Coq model + strategy-interpreter correspondence')
+T('C09', 'PROOF, complete on the model: PropsC09 (from Safety.handler_error_stops, generic in the table under wf_check): for ALL inputs, handlers and buffers the run returns the handler-supplied error value iff the last call was answered with it, whatever offset came with it, and no call follows an error. Correspondence: failing call k x hostile offsets, sentinel identity',
+  _TB, 'Coq proof (generic invariant, table checked by vm_compute) with correspondence')
+T('C10', 'PROOF for every machine-backed entry point: PropsC10 (Safety.machines_safe under wf_check): never panics, terminates within 2*len+2 dispatches, nil-error offsets in [0,len], for ALL inputs, ALL int64 handler offsets, ALL buffer contents; out-of-range consumed offsets are errPOutOfRange; integer readers ranges (IntFacts); float table bounds (TieFp). Correspondence: every exported function on hostile inputs/handlers/buffers, depth 20000 mixtures, 20 kB tokens, boundary exponents, tiny destination capacities. One KNOWN FINDING (offsets for number/literal members are discarded)',
+  _TB + 'Hand-written functions other than the integer readers are covered by the totality of their models only through correspondence (recover + watchdog).', 'Coq proof (safety invariant over all runs) with hostile correspondence')
+T('C11', 'PARTIAL: both skip tables tied to spec machines (TieSim); fast_agrees_spec in progress. Correspondence: state x byte sweep of skipValueFast, strings containing brackets/quotes/backslashes in 5 templates x following byte, documents; oracle = json.Decoder offset wherever the strict skip succeeds',
+  _TB, 'Coq simulation tie + correspondence')
+T('C12', 'PROOF on the model: DecodeFacts.decode_with_spec / decode_target_written_only_on_success / decode_error_is_readers / decode_null / decode_with_total, generic in the reader. Correspondence: every Decode function x 3 non-zero initial targets x inputs incl. null placed exactly where each reader gives up, string-buffer histories checking that a failing DecodeString leaves its target alone',
+  _TB, 'Coq proof with non-zero-target correspondence')
+T('C13', 'PROOF on the model: 256-way lemmas that the REGENERATED tokenTypes / whitespace tables are the fixed JSON tables (Tie.v); next_token_type_spec / next_token_spec closed forms; C13_ReadNull_exact / C13_ReadBool_exact end to end through simulation; readers_pairwise_exclusive (ExclusiveFacts.v). Correspondence: every byte after 10 whitespace prefixes, every 1-byte corruption/truncation of the literals, sweeps of both literal machines, every reader x token class',
+  _TB, 'Coq proof (finite sweeps + simulation + exclusivity) with correspondence')
+T('C14', 'PROOF, complete on the model: C14_history_irrelevant (from Safety.buffer_irrelevant under wf_check): for every finite call sequence on one Buffer (any initial contents; failing, depth-limited, handler-aborted calls; handlers re-entering the library with the same Buffer and overwriting its array) each outcome equals the no-buffer outcome. Correspondence: 1500+ histories incl. cross-function sequences that leave the shared stack longer than the depth limit; oracle = same calls with no buffer',
+  _TB, 'Coq proof (invariant over histories) with history correspondence')
+T('C15', 'PARTIAL: on the model reuse-equals-fresh is immediate (the model of the readers is a pure function of the input; no reader state exists); what the theorem cannot exhibit (aliasing of returned maps/slices with reader-owned memory, stale pooled state) is checked at run time: histories on one reader vs fresh readers, earlier results snapshotted and re-compared, later results scribbled, depth hook; entry points mixed at the depth limit',
+  _TB + 'The Go heap and sync.Pool are not modelled.', 'Coq model + history correspondence + run-time stability checks')
+T('C16', 'PARTIAL: append semantics and scratch independence hold by construction of the pure models (Frame.v theorem in progress); heap aliasing is observed at run time: input snapshot, destination prefix, 0xAA-filled spare capacity, overwrite of input and buffers after the call, string-buffer histories (STRING-ALIASES-BUFFER)',
+  _TB + 'Go string(b) copy semantics is trusted.', 'Coq model + run-time frame and aliasing checks')
+T('C17', 'PROOF, complete for the string functions: CompatFacts.compat_spec (model = Table 3-7 sanitiser), sanitize_valid / _valid_id / _idempotent / _app_valid, compat_bytes_append. Correspondence: all 1-byte, most 2-byte, class-wise 3/4-byte strings, destinations with every small (len,cap); tree helpers by correspondence (argument-unmodified check)',
+  _TB, 'Coq proof with exhaustive small-scope correspondence')
